@@ -324,9 +324,12 @@ def oracle(case, out):
     ops = case["ops"]
     viol = []
     flags = set()
-    creator = {}
-    news, clones, closes = {}, {}, {}
-    made, dropped = {}, {}
+    creator = {}      # id -> the collector that issued it
+    root = {}         # id -> the span it denotes (the id new_span returned): a collector's clone_span may return an alias
+    issued = {}       # id -> how many handles the collector issued it for (new_span / clone_span return values)
+    idclosed = {}     # id -> try_close calls with that id
+    news, clones, closes = {}, {}, {}      # per span
+    made, dropped = {}, {}                 # per span: handles that came into existence / were dropped (real Span::id())
     depth = {}
     own = Own()
     ids = {}          # holder name -> id+1 as reported by the real Span::id()  (0 = disabled)
@@ -354,7 +357,7 @@ def oracle(case, out):
             flags.add("fut-dropped-unpolled")
         if code in (DROP, ENTERED, INSTRUMENT, INTOINNER, ORCURRENT, SWAP) and ids.get(a, 0) > 0:
             # the handle is consumed / moved on this thread while the same span is entered on another thread
-            if any(ids.get(e[1], 0) == ids[a] and e[2] != t for e in own.ents):
+            if any(root.get(ids.get(e[1], 0) - 1, -1) == root.get(ids[a] - 1, -2) and e[2] != t for e in own.ents):
                 flags.add("moved-while-entered-elsewhere")
         if code == POLLBEGIN and own.kinds.get(a) in ('w', 'i'):
             flags.add("with-dispatch-poll")
@@ -386,6 +389,7 @@ def oracle(case, out):
                 bad("Instrumented: %s did not produce enter / body / exit (/ close) in order" % OPNAMES[code], i,
                     got=rec["e"], want=want)
         # --- the log itself
+        returned = None      # the id the collector handed out in this op (new_span / clone_span)
         for e in rec["e"]:
             c, et, tag, sid_, x, _y = e
             if tag > 7:
@@ -398,30 +402,55 @@ def oracle(case, out):
                 if sid_ in creator:
                     bad("an id was issued by new_span twice", i, entry=e)
                 creator[sid_] = c
+                root[sid_] = sid_
+                issued[sid_] = issued.get(sid_, 0) + 1
                 news[sid_] = news.get(sid_, 0) + 1
+                returned = sid_
                 continue
+            if sid_ not in root:
+                bad("a call used an id no collector had issued", i, entry=e, call=TAGS[tag])
+                continue
+            sp = root[sid_]
             if creator.get(sid_) != c:
                 bad("a call about a span went to a collector that did not create it", i, entry=e, call=TAGS[tag], created_by=creator.get(sid_))
-            if closes.get(sid_, 0) >= news.get(sid_, 0) + clones.get(sid_, 0):
+            if idclosed.get(sid_, 0) >= issued.get(sid_, 0):
+                # every handle this id was issued for has been closed
                 bad("a call arrived after the last handle's close notification", i, entry=e, call=TAGS[tag])
             if tag == 2:
-                clones[sid_] = clones.get(sid_, 0) + 1
+                clones[sp] = clones.get(sp, 0) + 1
+                ret = x
+                if ret != sid_:
+                    flags.add("alias-id")
+                if ret in root and root[ret] != sp:
+                    bad("harness: clone_span returned an id of another span", i, entry=e)
+                root[ret] = sp
+                creator[ret] = c
+                issued[ret] = issued.get(ret, 0) + 1
+                returned = ret
             elif tag == 3:
-                closes[sid_] = closes.get(sid_, 0) + 1
+                closes[sp] = closes.get(sp, 0) + 1
+                idclosed[sid_] = idclosed.get(sid_, 0) + 1
             elif tag == 4:
-                depth[(sid_, et)] = depth.get((sid_, et), 0) + 1
+                depth[(sp, et)] = depth.get((sp, et), 0) + 1
             elif tag == 5:
-                if depth.get((sid_, et), 0) == 0:
+                if depth.get((sp, et), 0) == 0:
                     bad("exit without a matching enter on that thread", i, entry=e)
                 else:
-                    depth[(sid_, et)] -= 1
+                    depth[(sp, et)] -= 1
         # --- handles made / dropped, as the real Span::id() reports them
         res, dr, pre = rec["res"], rec["dr"], rec["pre"]
         if code in (NEW, CLONE, CURRENT, CLONEFUT) or (code == ORCURRENT and pre == 0):
             if res and res - 1 != NOCOLL:
-                made[res - 1] = made.get(res - 1, 0) + 1
-        if dr and dr - 1 != NOCOLL:
-            dropped[dr - 1] = dropped.get(dr - 1, 0) + 1
+                if res - 1 not in root:
+                    bad("a handle carries an id no collector had issued", i, handle_id=res - 1)
+                else:
+                    made[root[res - 1]] = made.get(root[res - 1], 0) + 1
+                # the new handle must carry the id the collector returned from the call that made it
+                if returned is not None and res - 1 != returned:
+                    bad("the new handle does not carry the id its collector returned for it", i, handle_id=res - 1,
+                        collector_returned=returned)
+        if dr and dr - 1 != NOCOLL and dr - 1 in root:
+            dropped[root[dr - 1]] = dropped.get(root[dr - 1], 0) + 1
         if code in (NEW, CURRENT, ORCURRENT, EXITOWNED):
             ids[a] = res
         elif code in (CLONE, CLONEFUT):
@@ -462,12 +491,18 @@ def oracle(case, out):
                 bad("#clone_span differs from the number of additional handles", i, span=s, clone_span_calls=clones.get(s, 0), additional_handles=m - 1)
             if closes.get(s, 0) != d_:
                 bad("#try_close differs from the number of dropped handles", i, span=s, try_close_calls=closes.get(s, 0), dropped_handles=d_)
+            if m > 0 and m == d_:
+                # every handle of the span is gone: each id issued for one of them has had its close
+                for h, sp_ in root.items():
+                    if sp_ == s and idclosed.get(h, 0) != issued.get(h, 0):
+                        bad("an id issued for a handle of a fully dropped span did not get exactly one close per handle", i,
+                            span=s, id=h, issued_for_handles=issued.get(h, 0), try_close_calls=idclosed.get(h, 0))
         # --- enter/exit balance against the guards that are alive now
         want = {}
         for e in own.ents:
             s = ids.get(e[1], 0) - 1
-            if s >= 0 and s != NOCOLL:
-                want[(s, e[2])] = want.get((s, e[2]), 0) + 1
+            if s >= 0 and s != NOCOLL and s in root:
+                want[(root[s], e[2])] = want.get((root[s], e[2]), 0) + 1
         for k in set(want) | set(depth):
             if depth.get(k, 0) != want.get(k, 0):
                 bad("unmatched enters differ from the live guards / scopes / polls of that span on that thread", i, span=k[0], thread=k[1], unmatched_enters=depth.get(k, 0), live_guards=want.get(k, 0))
@@ -477,6 +512,15 @@ def oracle(case, out):
 
 
 # ------------------------------------------------------------------------------------------------
+
+def describe_collectors(case):
+    ws = case.get("wraps") or []
+    names = ["Dispatch::new(c)", "Dispatch::new(Box::new(c))", "Dispatch::new(Arc::new(c))",
+             "Dispatch::new(Box<dyn Collect + Send + Sync>)", "Dispatch::new(Arc<dyn Collect + Send + Sync>)"]
+    return ["collector %d: %s%s" % (k + 1, names[ws[k] if k < len(ws) else 0],
+                                    ", clone_span returns a fresh id per handle, current_span unknown" if k + 1 >= 3 else "")
+            for k in range(case.get("collectors", 2))]
+
 
 def wf_all(ops):
     own = Own()
@@ -533,7 +577,8 @@ def run(ctx):
                 "(tracing / tracing-futures; plain or around a WithDispatch), with_collector / with_current_collector around an "
                 "Instrumented, Poll begin/end (Pending/Ready/panic), IntoInner, inner/inner_mut/inner_pin_ref/inner_pin_mut, "
                 "mem::swap through span_mut, Clone for Instrumented/WithDispatch, SetDefault/CloseScope) on 1-3 (thorough: 1-6) OS threads, "
-                "2-3 recording collectors + no collector; non-trivial = the program has a clone AND (an out-of-order guard drop OR a "
+                "2-4 recording collectors (installed directly or behind Box<C> / Arc<C> / Box<dyn Collect> / Arc<dyn Collect>; "
+                "collectors 3 and 4 return a fresh alias id from clone_span and do not track the current span) + no collector; non-trivial = the program has a clone AND (an out-of-order guard drop OR a "
                 "future dropped between polls OR a collector call made while the thread's default was a different collector / none "
                 "OR a handle consumed on one thread while its span is entered on another); distinct = distinct op lists")
     rep.trusted_base = [
@@ -543,8 +588,10 @@ def run(ctx):
         "SpanApi.Model.compile (hand-written; mirrored by the harness validator and the generator, three-way compared on every case)",
         "std: drop order, catch_unwind, thread_local, mpsc; pin-project-lite"]
     rep.assumptions = [
-        "collector contract: new_span returns an id no collector has issued before, clone_span returns the id it was given, "
-        "current_span is the innermost span entered on the calling thread (exit removes the most recent occurrence)",
+        "collector contract: new_span returns an id no collector has issued before; clone_span returns the id it was given "
+        "(collectors 1, 2) or a fresh id that aliases the same span (collectors 3, 4: one id per handle); current_span is the "
+        "innermost span entered on the calling thread (exit removes the most recent occurrence) for collectors 1, 2 and "
+        "Current::unknown() (the trait's default) for collectors 3, 4",
         "no mem::forget / leaks of handles or guards; the `log` feature is off",
         "default-collector scopes are closed innermost-first (out-of-order DefaultGuard drops are C02's subject)",
         "a thread does not open / close default-collector scopes of its own while it is inside the poll of a WithDispatch-wrapped "
@@ -589,16 +636,19 @@ def run(ctx):
                 cases.append(c)
     for k in range(n):
         threads = rng.choice([1, 2, 2, 3]) if not ctx.thorough() else rng.choice([1, 2, 2, 3, 4, 6])
-        colls = rng.choice([2, 2, 3])
+        colls = rng.choice([2, 2, 3, 3, 4])
         malformed = rng.random() < 0.12
         size = rng.choice([6, 12, 20, 30, 30, 45, 70] + ([100, 140] if ctx.thorough() else []))
-        cases.append({"id": "r%d" % k, "threads": threads, "collectors": colls,
+        # how each collector reaches Dispatch::new: directly, Box<C>, Arc<C>, Box<dyn Collect + Send + Sync>, Arc<dyn ..>
+        wraps = [rng.choice([0, 0, 1, 2, 3, 4]) for _ in range(colls)]
+        cases.append({"id": "r%d" % k, "threads": threads, "collectors": colls, "wraps": wraps,
                       "ops": gen_program(rng, size, threads, colls, malformed)})
     if ctx.replay:
         rp = json.load(open(ctx.replay))
         c = rp.get("case", rp)
         c = c.get("program", c)
-        cases = [{"id": "replay", "threads": c["threads"], "collectors": c["collectors"], "ops": [(o + [0] * 7)[:7] for o in c["ops"]]}]
+        cases = [{"id": "replay", "threads": c["threads"], "collectors": c["collectors"], "wraps": c.get("wraps", []),
+                  "ops": [(o + [0] * 7)[:7] for o in c["ops"]]}]
     # ---- implementation
     builds = [False] + ([True] if ctx.thorough() else [])
     impl = {}
@@ -637,6 +687,9 @@ def run(ctx):
                 rep.evaluations += 1
                 rep.count("ops:%d-%d" % ((len(c["ops"]) // 20) * 20, (len(c["ops"]) // 20) * 20 + 19))
                 rep.count("threads:%d" % c["threads"])
+                for k_, w_ in enumerate(c.get("wraps", [])):
+                    rep.count("collector-installed-as:" + ["direct", "Box<C>", "Arc<C>", "Box<dyn>", "Arc<dyn>"][w_] +
+                              (" (fresh id per handle)" if k_ + 1 >= 3 else ""))
                 for o in c["ops"][:len(r["ops"])]:
                     rep.count("op:" + OPNAMES[o[1]])
             if r.get("fatal"):
@@ -646,12 +699,15 @@ def run(ctx):
                 rep.count("malformed-rejected")
             viol, flags = oracle(c, r)
             for what, detail in viol[:3]:
-                if what not in shrunk and len(shrunk) < 4 and r["rejected_at"] < 0:
-                    small = shrink(bin_paths[prof], c, what)
+                if what not in shrunk and len(shrunk) < 4:
+                    # an ill-formed program is cut at the refused op: the executed prefix is a well-formed program
+                    base = c if r["rejected_at"] < 0 else dict(c, ops=c["ops"][:r["rejected_at"]])
+                    small = shrink(bin_paths[prof], base, what)
                     rc2, out2 = run_bin(bin_paths[prof], input=json.dumps(small) + "\n", timeout=120)
                     r2 = [json.loads(l) for l in out2.splitlines() if l.startswith("{")][0]
                     d2 = [d for w, d in oracle(small, r2)[0] if w == what]
                     shrunk[what] = {"program": small, "pretty": pretty(small["ops"]), "detail": d2[0] if d2 else detail,
+                                    "collectors": describe_collectors(small),
                                     "impl_log": [[TAGS[e[2]], e] for o in r2["ops"] for e in o["e"]], "profile": prof,
                                     "shrunk_from_ops": len(c["ops"])}
                     rep.violation(what + " [%s build]" % prof, shrunk[what])
